@@ -11,6 +11,18 @@ import (
 
 func (core *JApiCore) scanProject() (je *jerr.JApiError) {
 	defer func() {
+		if je != nil && je.Msg != jerr.RecursionIsProhibited && core.scanner != nil &&
+			core.scannersStack.Holds(core.scanner.File().Name()) {
+			// The file which is scanned now is included by itself, directly or
+			// through other files. The recursion is noticed when this copy gets to
+			// the INCLUDE again; something else has gone wrong before that - a
+			// directive of the copy which does not fit into the context the first
+			// one has left open, for instance. It is the recursion which has to be
+			// reported, at the INCLUDE that has started the copy.
+			at := core.scannersStack.TopAt()
+			core.scanner = core.scannersStack.Pop()
+			je = core.japiError(jerr.RecursionIsProhibited, at)
+		}
 		// We might get an error during scanning included file, and we should return
 		// correct error in that case.
 		if je != nil && je.File != nil && je.File != core.scanner.File() {
